@@ -160,13 +160,14 @@ func newEnvInto(e *env, nPeers int) *env {
 
 // write describes one pending write.
 type write struct {
-	peer    int
-	item    int // alarm id it changes
-	ack     bool
-	counter model.MsgCounterType
-	verdict []string // per callback
-	late    []bool   // per callback: delivered after the time-out
-	bareDst bool     // the destination address of the write names no device (the device part is optional)
+	peer     int
+	item     int // alarm id it changes
+	ack      bool
+	ackFalse bool // (ack == false) the header carries "ackRequest": false instead of no ackRequest element
+	counter  model.MsgCounterType
+	verdict  []string // per callback
+	late     []bool   // per callback: delivered after the time-out
+	bareDst  bool     // the destination address of the write names no device (the device part is optional)
 	// full: a write without filter, carrying the complete list (texts of the items 0..2 in payload).
 	// same: its payload is the data the feature holds when the write is sent (the peer writes back
 	// what it has read, or repeats what was written before).
@@ -175,6 +176,16 @@ type write struct {
 }
 
 func (w write) marker() string { return fmt.Sprintf("w-%d-%d", w.peer, w.item) }
+
+func (w write) ackForm() string {
+	switch {
+	case w.ack:
+		return "true"
+	case w.ackFalse:
+		return "false"
+	}
+	return "absent"
+}
 
 func (w write) shape() string {
 	switch {
@@ -256,6 +267,9 @@ func (e *env) send(w write) {
 	d := p.Msg(model.CmdClassifierTypeWrite, p.FA([]uint{1}, 1), &dst, w.ack, nil, cmd)
 	c := w.counter
 	d.Header.MsgCounter = &c
+	if !w.ack && w.ackFalse {
+		d.Header.AckRequest = util.Ptr(false)
+	}
 	p.Send(d)
 }
 
@@ -319,7 +333,7 @@ func waitFor(cond func() bool, max time.Duration) bool {
 func describe(ws []write) string {
 	var l []string
 	for _, w := range ws {
-		l = append(l, fmt.Sprintf("write peer%d item%d %s counter=%d ack=%v verdicts=%v late=%v", w.peer+1, w.item, w.shape(), w.counter, w.ack, w.verdict, w.late))
+		l = append(l, fmt.Sprintf("write peer%d item%d %s counter=%d ackRequest=%s verdicts=%v late=%v", w.peer+1, w.item, w.shape(), w.counter, w.ackForm(), w.verdict, w.late))
 	}
 	return "\n " + strings.Join(l, "\n ")
 }
@@ -345,7 +359,14 @@ func TestApprovalMatrix(t *testing.T) {
 		var ws []write
 		used := map[string]bool{}
 		for i := 0; i < nW; i++ {
-			w := write{peer: rapid.IntRange(0, 1).Draw(t, fmt.Sprintf("peer%d", i)), item: i, ack: rapid.IntRange(0, 3).Draw(t, fmt.Sprintf("ack%d", i)) != 0}
+			w := write{peer: rapid.IntRange(0, 1).Draw(t, fmt.Sprintf("peer%d", i)), item: i}
+			// the header asks for an acknowledgement, says nothing about it, or declines it explicitly
+			switch rapid.SampledFrom([]string{"true", "true", "true", "absent", "false"}).Draw(t, fmt.Sprintf("ackRequest%d", i)) {
+			case "true":
+				w.ack = true
+			case "false":
+				w.ackFalse = true
+			}
 			w.bareDst = rapid.IntRange(0, 3).Draw(t, fmt.Sprintf("destinationWithoutDevice%d", i)) == 0
 			// equal message counters on different peers are allowed (and wanted)
 			w.counter = model.MsgCounterType(100 + rapid.IntRange(0, 2).Draw(t, fmt.Sprintf("counter%d", i)))
@@ -612,7 +633,7 @@ func TestApprovalMatrix(t *testing.T) {
 				visible = final[w.item] == w.marker()
 				hidden = approvedFulls > 0
 			}
-			rows = append(rows, fmt.Sprintf("%s/%v/%v/%v", w.shape(), w.verdict, w.late, w.ack))
+			rows = append(rows, fmt.Sprintf("%s/%v/%v/%s", w.shape(), w.verdict, w.late, w.ackForm()))
 			what := fmt.Sprintf("%s (%s): success results=%d error results=%d, visible in the data=%v (items now %q)", w.marker(), w.shape(), s, er, visible, final)
 			if approvedEarly {
 				wantS := 0
